@@ -623,11 +623,12 @@ impl Default for KittyImageHandler {
 const KITTY_MAX_ID: u64 = 4294967295;
 /// We are using position to derive placement_id, and this is the limit
 /// on terminal dimension (width and height).
-const KITTY_MAX_DIM: u64 = 65536;
+const KITTY_MAX_DIM: u64 = 65535;
 
 /// Identification for image data
 fn kitty_image_id(img: &Image) -> u64 {
-    img.hash() % KITTY_MAX_ID
+    // zero is not a valid identifier
+    img.hash() % KITTY_MAX_ID + 1
 }
 
 /// Identification of particular placement of the image
@@ -636,13 +637,14 @@ fn kitty_image_id(img: &Image) -> u64 {
 /// but in particular implementation it is bound to a physical position on
 /// the screen.
 fn kitty_placement_id(pos: Position) -> u64 {
-    (pos.row as u64 % KITTY_MAX_DIM) + (pos.col as u64 % KITTY_MAX_DIM) * KITTY_MAX_DIM
+    // zero means "any placement" for the terminal, so identifiers start from one
+    (pos.row as u64 % KITTY_MAX_DIM) + (pos.col as u64 % KITTY_MAX_DIM) * KITTY_MAX_DIM + 1
 }
 
 fn kitty_placement_to_pos(placement_id: u64) -> Position {
     Position {
-        col: (placement_id / KITTY_MAX_DIM) as usize,
-        row: (placement_id % KITTY_MAX_DIM) as usize,
+        col: (placement_id.saturating_sub(1) / KITTY_MAX_DIM) as usize,
+        row: (placement_id.saturating_sub(1) % KITTY_MAX_DIM) as usize,
     }
 }
 
